@@ -10,37 +10,40 @@ open Rlbox
 theorem status_enum_matches : Generated.statusEnum = Status.names := by decide
 
 /-- create succeeds only on a sandbox that is not created (any other state aborts) ... -/
-theorem C14_create_only_from_not_created (w : World) (i : Nat) (ok : Bool) (lib : Nat)
-    (h : (w.sbx i).status ≠ .notCreated) : w.create i ok lib = none := by
+theorem C14_create_only_from_not_created (w : World) (i : Nat) (ok : Bool) (lib r : Nat)
+    (h : (w.sbx i).status ≠ .notCreated) : w.create i ok lib r = none := by
   simp [World.create, h]
 
-/-- ... and from NOT_CREATED a successful backend creation makes it CREATED, registered and bound
-to the given library; a failed one leaves it INITIALIZING (never registered). -/
-theorem C14_create_from_not_created (w : World) (i : Nat) (lib : Nat) (h : (w.sbx i).status = .notCreated) :
-    (∀ w' b, w.create i true lib = some (w', b) →
-        b = true ∧ (w'.sbx i).status = .created ∧ i ∈ w'.reg ∧ (w'.sbx i).lib = lib) ∧
-    (w.create i true lib).isSome = true ∧
-    (∀ w' b, w.create i false lib = some (w', b) →
+/-- ... and from NOT_CREATED (in a region the backend can map) a successful backend creation makes it
+CREATED, registered and bound to the given library and region; a failed one leaves it INITIALIZING
+(never registered). -/
+theorem C14_create_from_not_created (w : World) (i : Nat) (lib r : Nat) (h : (w.sbx i).status = .notCreated)
+    (hr : r ∉ w.mapped) :
+    (∀ w' b, w.create i true lib r = some (w', b) →
+        b = true ∧ (w'.sbx i).status = .created ∧ i ∈ w'.reg ∧ (w'.sbx i).lib = lib ∧ (w'.sbx i).rgn = r) ∧
+    (w.create i true lib r).isSome = true ∧
+    (∀ w' b, w.create i false lib r = some (w', b) →
         b = false ∧ (w'.sbx i).status = .initializing ∧ w'.reg = w.reg) ∧
-    (w.create i false lib).isSome = true := by
-  refine ⟨?_, by simp [World.create, h], ?_, by simp [World.create, h]⟩
+    (w.create i false lib r).isSome = true := by
+  refine ⟨?_, by simp [World.create, h, hr], ?_, by simp [World.create, h, hr]⟩
   · intro w' b hc
-    simp only [World.create, h, ne_eq, not_true_eq_false, if_false, if_true, Option.some.injEq, Prod.mk.injEq] at hc
-    obtain ⟨rfl, rfl⟩ := hc
+    obtain ⟨_, _, rfl, rfl⟩ := create_cases w w' i true lib r b hc
     simp [World.setS]
   · intro w' b hc
-    simp only [World.create, h, ne_eq, not_true_eq_false, if_false, Bool.false_eq_true, Option.some.injEq, Prod.mk.injEq] at hc
-    obtain ⟨rfl, rfl⟩ := hc
+    obtain ⟨_, _, rfl, rfl⟩ := create_cases w w' i false lib r b hc
     simp [World.setS]
 
-/-- destroy succeeds only on a created sandbox; afterwards it is NOT_CREATED (can be created again)
-and its symbol cache is empty. -/
+/-- destroy succeeds only on a created sandbox; afterwards it is NOT_CREATED (can be created again),
+its symbol cache, its callback keys and its entry-point table are empty and its incarnation number
+has advanced. -/
 theorem C14_destroy_only_from_created (w : World) (i : Nat) (h : (w.sbx i).status ≠ .created) : w.destroy i = none := by
   simp [World.destroy, h]
 
 theorem C14_destroy_effect (w w' : World) (i : Nat) (h : w.destroy i = some w') :
     (w.sbx i).status = .created ∧ (w'.sbx i).status = .notCreated ∧ (∀ n, (w'.sbx i).cache n = none) ∧
-    w'.reg = w.reg.erase i ∧ (∀ j, j ≠ i → w'.sbx j = w.sbx j) := by
+    w'.reg = w.reg.erase i ∧ (∀ j, j ≠ i → w'.sbx j = w.sbx j) ∧
+    (∀ f, (w'.sbx i).keys f = false) ∧ (∀ k, (w'.sbx i).slots k = none) ∧ (w'.sbx i).inc = (w.sbx i).inc + 1 ∧
+    w'.mapped = w.mapped.erase (w.sbx i).rgn := by
   unfold World.destroy at h
   by_cases h1 : (w.sbx i).status ≠ .created
   · simp [h1] at h
@@ -48,7 +51,8 @@ theorem C14_destroy_effect (w w' : World) (i : Nat) (h : w.destroy i = some w') 
     · simp [h1, h2] at h
     · simp only [h1, h2, if_false, Option.some.injEq] at h
       subst h
-      refine ⟨by simpa using h1, by simp [World.setS], by simp [World.setS], rfl, ?_⟩
+      refine ⟨by simpa using h1, by simp [World.setS, destroyedObj], by simp [World.setS, destroyedObj], rfl, ?_,
+        by simp [World.setS, destroyedObj], by simp [World.setS, destroyedObj], by simp [World.setS, destroyedObj], rfl⟩
       intro j hj; simp [World.setS, hj]
 
 /-- the registry invariant: exactly the CREATED sandbox objects are in the list, each once -/
@@ -56,7 +60,7 @@ def RegInv (w : World) : Prop := (∀ i, i ∈ w.reg ↔ (w.sbx i).status = .cre
 
 theorem release_status (w w' : World) (o : Nat) (h : w.release o = some w') :
     w'.reg = w.reg ∧ ∀ j, (w'.sbx j).status = (w.sbx j).status := by
-  rcases release_cases w w' o h with ⟨_, rfl⟩ | ⟨i, f, _, _, rfl⟩ | ⟨i, f, _, _, _, rfl⟩
+  rcases release_cases w w' o h with ⟨_, rfl⟩ | ⟨i, f, _, _, _, rfl⟩ | ⟨i, f, _, _, _, _, _, rfl⟩
   · exact ⟨rfl, fun _ => rfl⟩
   · exact ⟨rfl, fun _ => rfl⟩
   · refine ⟨rfl, fun j => ?_⟩
@@ -94,50 +98,85 @@ theorem register_status (w w' : World) (i o f k : Nat) (h : w.register i o f = s
     · subst hj; simp [World.setS, registeredObj]
     · simp [World.setS, hj]
 
+theorem release_rgn (w w' : World) (o : Nat) (h : w.release o = some w') :
+    w'.mapped = w.mapped ∧ ∀ j, (w'.sbx j).rgn = (w.sbx j).rgn := by
+  rcases release_cases w w' o h with ⟨_, rfl⟩ | ⟨i, f, _, _, _, rfl⟩ | ⟨i, f, _, _, _, _, _, rfl⟩
+  · exact ⟨rfl, fun _ => rfl⟩
+  · exact ⟨rfl, fun _ => rfl⟩
+  · refine ⟨rfl, fun j => ?_⟩
+    by_cases hj : j = i
+    · subst hj; simp [World.setS, releasedObj]
+    · simp [World.setS, hj]
+
+theorem moveOwner_rgn (w w' : World) (d s : Nat) (h : w.moveOwner d s = some w') :
+    w'.mapped = w.mapped ∧ ∀ j, (w'.sbx j).rgn = (w.sbx j).rgn := by
+  unfold World.moveOwner at h
+  by_cases hds : d = s
+  · simp [hds] at h; subst h; exact ⟨rfl, fun _ => rfl⟩
+  · simp only [hds, if_false] at h
+    cases hrel : w.release d with
+    | none => simp [hrel] at h
+    | some w1 =>
+      simp only [hrel, Option.some.injEq] at h; subst h
+      obtain ⟨r1, r2⟩ := release_rgn w w1 d hrel
+      exact ⟨by simpa [World.setO] using r1, fun j => by simp only [setO_sbx]; exact r2 j⟩
+
+theorem register_rgn (w w' : World) (i o f k : Nat) (h : w.register i o f = some (w', k)) :
+    w'.mapped = w.mapped ∧ ∀ j, (w'.sbx j).rgn = (w.sbx j).rgn := by
+  unfold World.register at h
+  cases hn : w.registerNew i tmpOwner f with
+  | none => simp [hn] at h
+  | some r =>
+    obtain ⟨w1, k1⟩ := r
+    simp only [hn, Option.map_eq_some_iff, Prod.mk.injEq] at h
+    obtain ⟨w2, hm, rfl, rfl⟩ := h
+    obtain ⟨_, _, _, rfl⟩ := registerNew_cases w w1 i tmpOwner f k1 hn
+    obtain ⟨r1, r2⟩ := moveOwner_rgn _ w2 o tmpOwner hm
+    refine ⟨by simpa [World.setO, World.setS] using r1, fun j => ?_⟩
+    rw [r2 j, setO_sbx]
+    by_cases hj : j = i
+    · subst hj; simp [World.setS, registeredObj]
+    · simp [World.setS, hj]
+
 theorem step_regInv (w : World) (op : LOp) (h : RegInv w) : RegInv (w.step op) := by
   obtain ⟨hm, hn⟩ := h
   cases op with
-  | create i ok lib =>
+  | create i ok lib r =>
     simp only [World.step]
-    cases hc : w.create i ok lib with
+    cases hc : w.create i ok lib r with
     | none => exact ⟨hm, hn⟩
-    | some r =>
-      obtain ⟨w', b⟩ := r
+    | some res =>
+      obtain ⟨w', b⟩ := res
       simp only
-      unfold World.create at hc
-      by_cases h1 : (w.sbx i).status ≠ .notCreated
-      · simp [h1] at hc
-      · have h1' : (w.sbx i).status = .notCreated := by simpa using h1
-        cases ok with
-        | true =>
-          simp only [h1, if_false, if_true, Option.some.injEq, Prod.mk.injEq] at hc
-          obtain ⟨rfl, _⟩ := hc
-          have hni : i ∉ w.reg := by rw [hm i, h1']; decide
-          constructor
-          · intro j
-            by_cases hj : j = i
-            · subst hj; simp [World.setS]
-            · simp [World.setS, hj, hm j]
-          · simp only [setS_reg]
-            rw [List.nodup_append]
-            refine ⟨hn, by simp, ?_⟩
-            intro a ha b hb; simp at hb; subst hb; intro e; subst e; exact hni ha
-        | false =>
-          simp only [h1, if_false, Bool.false_eq_true, Option.some.injEq, Prod.mk.injEq] at hc
-          obtain ⟨rfl, _⟩ := hc
-          constructor
-          · intro j
-            by_cases hj : j = i
-            · subst hj; simp [World.setS, hm j, h1']
-            · simp [World.setS, hj, hm j]
-          · exact hn
+      obtain ⟨h1', _, _, rfl⟩ := create_cases w w' i ok lib r b hc
+      cases ok with
+      | true =>
+        simp only [if_true]
+        have hni : i ∉ w.reg := by rw [hm i, h1']; decide
+        constructor
+        · intro j
+          by_cases hj : j = i
+          · subst hj; simp [World.setS]
+          · simp [World.setS, hj, hm j]
+        · simp only [setS_reg]
+          rw [List.nodup_append]
+          refine ⟨hn, by simp, ?_⟩
+          intro a ha b hb; simp at hb; subst hb; intro e; subst e; exact hni ha
+      | false =>
+        simp only [Bool.false_eq_true, if_false]
+        constructor
+        · intro j
+          by_cases hj : j = i
+          · subst hj; simp [World.setS, hm j, h1']
+          · simp [World.setS, hj, hm j]
+        · exact hn
   | destroy i =>
     simp only [World.step]
     cases hd : w.destroy i with
     | none => exact ⟨hm, hn⟩
     | some w' =>
       simp only [Option.getD_some]
-      obtain ⟨s0, s1, _, r, other⟩ := C14_destroy_effect w w' i hd
+      obtain ⟨s0, s1, _, r, other, _⟩ := C14_destroy_effect w w' i hd
       constructor
       · intro j
         rw [r]
@@ -192,71 +231,235 @@ theorem C14_registry_exact (m : Nat) (ops : List LOp) : RegInv (ops.foldl World.
   | nil => intro w hw; exact hw
   | cons op ops ih => intro w hw; exact ih _ (step_regInv w op hw)
 
+/-- the region invariant (the backend's law, maintained because a backend cannot map a region that is
+in use): every live sandbox's region is mapped, and two live sandboxes never share a region -/
+def RgnInv (w : World) : Prop :=
+  (∀ i, i ∈ w.reg → (w.sbx i).rgn ∈ w.mapped) ∧
+  (∀ i j, i ∈ w.reg → j ∈ w.reg → (w.sbx i).rgn = (w.sbx j).rgn → i = j)
+
+theorem step_rgnInv (w : World) (op : LOp) (h : RegInv w) (hr : RgnInv w) : RgnInv (w.step op) := by
+  obtain ⟨hm, hn⟩ := h
+  obtain ⟨hin, hdis⟩ := hr
+  cases op with
+  | create i ok lib r =>
+    simp only [World.step]
+    cases hc : w.create i ok lib r with
+    | none => exact ⟨hin, hdis⟩
+    | some res =>
+      obtain ⟨w', b⟩ := res
+      simp only
+      obtain ⟨h1', hfree, _, rfl⟩ := create_cases w w' i ok lib r b hc
+      have hni : i ∉ w.reg := by rw [hm i, h1']; decide
+      have hne : ∀ j, j ∈ w.reg → j ≠ i := fun j hj e => hni (e ▸ hj)
+      cases ok with
+      | true =>
+        simp only [if_true]
+        constructor
+        · intro j hj
+          simp only [setS_reg, List.mem_append, List.mem_singleton] at hj
+          rcases hj with hj | rfl
+          · simp [World.setS, hne j hj, hin j hj]
+          · simp [World.setS]
+        · intro j k hj hk e
+          simp only [setS_reg, List.mem_append, List.mem_singleton] at hj hk
+          rcases hj with hj | rfl <;> rcases hk with hk | rfl
+          · simp only [World.setS, hne j hj, hne k hk, if_false] at e; exact hdis j k hj hk e
+          · simp only [World.setS, hne j hj, if_false, if_true] at e
+            exact absurd (e ▸ hin j hj) hfree
+          · simp only [World.setS, hne k hk, if_false, if_true] at e
+            exact absurd (e ▸ hin k hk) hfree
+          · rfl
+      | false =>
+        simp only [Bool.false_eq_true, if_false]
+        constructor
+        · intro j hj
+          simp only [setS_reg] at hj
+          simp [World.setS, hne j hj, hin j hj]
+        · intro j k hj hk e
+          simp only [setS_reg] at hj hk
+          simp only [World.setS, hne j hj, hne k hk, if_false] at e; exact hdis j k hj hk e
+  | destroy i =>
+    simp only [World.step]
+    cases hd : w.destroy i with
+    | none => exact ⟨hin, hdis⟩
+    | some w' =>
+      simp only [Option.getD_some]
+      obtain ⟨_, _, _, r, other, _, _, _, hmap⟩ := C14_destroy_effect w w' i hd
+      have hmem : ∀ j, j ∈ w'.reg → j ∈ w.reg ∧ j ≠ i := by
+        intro j hj; rw [r, List.Nodup.mem_erase_iff hn] at hj; exact ⟨hj.2, hj.1⟩
+      have hii : i ∈ w.reg := by
+        unfold World.destroy at hd
+        by_cases h1 : (w.sbx i).status ≠ .created
+        · simp [h1] at hd
+        · by_cases h2 : i ∉ w.reg
+          · simp [h1, h2] at hd
+          · simpa using h2
+      constructor
+      · intro j hj
+        obtain ⟨hj1, hj2⟩ := hmem j hj
+        rw [other j hj2, hmap]
+        have : (w.sbx j).rgn ≠ (w.sbx i).rgn := fun e => hj2 (hdis j i hj1 hii e)
+        exact (List.mem_erase_of_ne this).2 (hin j hj1)
+      · intro j k hj hk e
+        obtain ⟨hj1, hj2⟩ := hmem j hj
+        obtain ⟨hk1, hk2⟩ := hmem k hk
+        rw [other j hj2, other k hk2] at e
+        exact hdis j k hj1 hk1 e
+  | register i o f =>
+    simp only [World.step]
+    cases hr : w.register i o f with
+    | none => exact ⟨hin, hdis⟩
+    | some res =>
+      obtain ⟨w', k⟩ := res
+      obtain ⟨r1, _⟩ := register_status w w' i o f k hr
+      obtain ⟨m1, g1⟩ := register_rgn w w' i o f k hr
+      exact ⟨fun j hj => by rw [m1, g1 j]; exact hin j (r1 ▸ hj),
+             fun j k' hj hk e => by rw [g1 j, g1 k'] at e; exact hdis j k' (r1 ▸ hj) (r1 ▸ hk) e⟩
+  | release o =>
+    simp only [World.step]
+    cases hr : w.release o with
+    | none => exact ⟨hin, hdis⟩
+    | some w' =>
+      simp only [Option.getD_some]
+      obtain ⟨r1, _⟩ := release_status w w' o hr
+      obtain ⟨m1, g1⟩ := release_rgn w w' o hr
+      exact ⟨fun j hj => by rw [m1, g1 j]; exact hin j (r1 ▸ hj),
+             fun j k' hj hk e => by rw [g1 j, g1 k'] at e; exact hdis j k' (r1 ▸ hj) (r1 ▸ hk) e⟩
+  | move d s =>
+    simp only [World.step]
+    cases hr : w.moveOwner d s with
+    | none => exact ⟨hin, hdis⟩
+    | some w' =>
+      simp only [Option.getD_some]
+      obtain ⟨r1, _⟩ := moveOwner_status w w' d s hr
+      obtain ⟨m1, g1⟩ := moveOwner_rgn w w' d s hr
+      exact ⟨fun j hj => by rw [m1, g1 j]; exact hin j (r1 ▸ hj),
+             fun j k' hj hk e => by rw [g1 j, g1 k'] at e; exact hdis j k' (r1 ▸ hj) (r1 ▸ hk) e⟩
+  | lookup i n =>
+    simp only [World.step, World.lookup]
+    split
+    · exact ⟨hin, hdis⟩
+    · have same : ∀ j, ((w.setS i { w.sbx i with cache := fun m => if m = n then some (w.sbx i).lib else (w.sbx i).cache m }).sbx j).rgn = (w.sbx j).rgn := by
+        intro j; by_cases hj : j = i
+        · subst hj; simp [World.setS]
+        · simp [World.setS, hj]
+      exact ⟨fun j hj => by rw [same j]; exact hin j hj,
+             fun j k hj hk e => by rw [same j, same k] at e; exact hdis j k hj hk e⟩
+
+/-- both invariants hold after every history -/
+theorem C14_invariants (m : Nat) (ops : List LOp) :
+    RegInv (ops.foldl World.step (World.init m)) ∧ RgnInv (ops.foldl World.step (World.init m)) := by
+  suffices h : ∀ w, RegInv w → RgnInv w → RegInv (ops.foldl World.step w) ∧ RgnInv (ops.foldl World.step w) from
+    h _ ⟨fun i => by simp [World.init], by simp [World.init]⟩ ⟨by simp [World.init], by simp [World.init]⟩
+  induction ops with
+  | nil => intro w hw hr; exact ⟨hw, hr⟩
+  | cons op ops ih => intro w hw hr; exact ih _ (step_regInv w op hw) (step_rgnInv w op hw hr)
+
 /-- Exactly between a successful create and the matching destroy a sandbox is found from addresses
-inside its memory. -/
-theorem C14_find (w : World) (h : RegInv w) (i : Nat) :
-    (w.find i = some i ↔ (w.sbx i).status = .created) ∧ (w.find i = none ↔ (w.sbx i).status ≠ .created) := by
+inside its memory -- and it is the only one: a lookup with an address of region `r` yields sandbox
+`i` iff `i` is created and `r` is the region it was created in; it yields nothing iff no created
+sandbox has that region (in particular never a destroyed sandbox whose region has been reused). -/
+theorem C14_find (w : World) (h : RegInv w) (hr : RgnInv w) (r i : Nat) :
+    (w.find r = some i ↔ ((w.sbx i).status = .created ∧ (w.sbx i).rgn = r)) ∧
+    (w.find r = none ↔ ∀ j, (w.sbx j).status = .created → (w.sbx j).rgn ≠ r) := by
   unfold World.find
   constructor
-  · rw [← h.1 i]
-    constructor
-    · intro hf; have := List.mem_of_find?_eq_some hf; exact this
-    · intro hm
-      cases hf : w.reg.find? (· == i) with
-      | none => rw [List.find?_eq_none] at hf; have := hf i hm; simp at this
-      | some j => have := List.find?_some hf; simp at this; rw [this]
+  · constructor
+    · intro hf
+      have hmem := List.mem_of_find?_eq_some hf
+      have hp := List.find?_some hf
+      exact ⟨(h.1 i).1 hmem, by simpa using hp⟩
+    · rintro ⟨hc, hrg⟩
+      have hmem := (h.1 i).2 hc
+      cases hf : w.reg.find? (fun j => (w.sbx j).rgn == r) with
+      | none =>
+        rw [List.find?_eq_none] at hf
+        have := hf i hmem; simp [hrg] at this
+      | some j =>
+        have hj := List.mem_of_find?_eq_some hf
+        have hp := List.find?_some hf
+        have : (w.sbx j).rgn = r := by simpa using hp
+        rw [hr.2 j i hj hmem (by rw [this, hrg])]
   · rw [List.find?_eq_none]
     constructor
-    · intro hf hc; have hm := (h.1 i).2 hc; have := hf i hm; simp at this
-    · intro hn x hx; simp; intro e; subst e; exact hn ((h.1 x).1 hx)
+    · intro hf j hc e
+      have := hf j ((h.1 j).2 hc); simp [e] at this
+    · intro hn x hx
+      have := hn x ((h.1 x).1 hx)
+      simpa using this
 
 /-- Outside the window: allocation is refused (null), registration aborts, and releasing an owner
 leaves the sandbox object untouched (unregistration is ignored). -/
 theorem C14_outside_window (w : World) (i : Nat) (h : (w.sbx i).status ≠ .created) :
     w.isCreated i = false ∧ (∀ o f, w.register i o f = none) ∧
-    (∀ o f w', w.owners o = some (i, f) → w.release o = some w' → w'.sbx i = w.sbx i) := by
+    (∀ o f n w', w.owners o = some (i, f, n) → w.release o = some w' → w'.sbx i = w.sbx i) := by
   refine ⟨by simp [World.isCreated, h], fun o f => by simp [World.register, World.registerNew, h], ?_⟩
-  intro o f w' ho hr
-  rcases release_cases w w' o hr with ⟨hn, _⟩ | ⟨i', f', ho', _, rfl⟩ | ⟨i', f', ho', hc, _, _⟩
+  intro o f n w' ho hr
+  rcases release_cases w w' o hr with ⟨hn, _⟩ | ⟨i', f', n', ho', _, rfl⟩ | ⟨i', f', n', ho', hc, _, _, _⟩
   · rw [ho] at hn; cases hn
   · rfl
   · rw [ho] at ho'; cases ho'; exact absurd hc h
 
 /-- Cached symbol addresses of an earlier incarnation are not visible after re-creation: a lookup
 after destroy + create resolves in the library bound by the new create. -/
-theorem C14_fresh_symbols (w w1 w2 : World) (i lib : Nat) (name : String)
-    (hd : w.destroy i = some w1) (hc : w1.create i true lib = some (w2, true)) :
+theorem C14_fresh_symbols (w w1 w2 : World) (i lib r : Nat) (name : String)
+    (hd : w.destroy i = some w1) (hc : w1.create i true lib r = some (w2, true)) :
     (w2.lookup i name).2 = lib := by
-  obtain ⟨_, s1, c1, _, _⟩ := C14_destroy_effect w w1 i hd
-  simp only [World.create, s1, ne_eq, not_true_eq_false, if_false, if_true, Option.some.injEq, Prod.mk.injEq, and_true] at hc
-  subst hc
+  obtain ⟨_, s1, c1, _, _, _⟩ := C14_destroy_effect w w1 i hd
+  obtain ⟨_, _, _, rfl⟩ := create_cases w1 w2 i true lib r true hc
   simp [World.lookup, World.setS, c1 name]
 
-/-- Full freshness (also callback registrations of the earlier incarnation are gone). -/
-def C14_fresh_full : Prop :=
-  ∀ (w w1 w2 : World) (i lib : Nat), w.destroy i = some w1 → w1.create i true lib = some (w2, true) →
-    ∀ f, (w2.sbx i).keys f = false
+/-- Full freshness: nothing that belonged to the earlier incarnation is visible in the new one -- no
+callback key, no entry point, no cached symbol -- whatever owner objects are still alive, and a
+stale owner cannot be told apart from an empty one by the sandbox (its release changes nothing).
+(Before the repair of F6b this was false: keys and entry points survived.) -/
+theorem C14_fresh_full (w w1 w2 : World) (i lib r : Nat)
+    (hd : w.destroy i = some w1) (hc : w1.create i true lib r = some (w2, true)) :
+    (∀ f, (w2.sbx i).keys f = false) ∧ (∀ k, (w2.sbx i).slots k = none) ∧ (∀ n, (w2.sbx i).cache n = none) ∧
+    (w2.sbx i).inc = (w.sbx i).inc + 1 ∧ w2.owners = w.owners := by
+  obtain ⟨_, s1, c1, _, _, k1, sl1, n1, _⟩ := C14_destroy_effect w w1 i hd
+  have ho1 : w1.owners = w.owners := by
+    unfold World.destroy at hd
+    by_cases h1 : (w.sbx i).status ≠ .created
+    · simp [h1] at hd
+    · by_cases h2 : i ∉ w.reg
+      · simp [h1, h2] at hd
+      · simp only [h1, h2, if_false, Option.some.injEq] at hd
+        subst hd; rfl
+  obtain ⟨_, _, _, rfl⟩ := create_cases w1 w2 i true lib r true hc
+  refine ⟨?_, ?_, ?_, ?_, ho1⟩
+  · intro f; simp [World.setS, k1 f]
+  · intro k; simp [World.setS, sl1 k]
+  · intro n; simp [World.setS, c1 n]
+  · simp [World.setS, n1]
 
-/-- False of the code as it is (finding F6b): `callback_keys` (and the backend slot table) survive
-destroy_sandbox when an owner outlives it; in the new incarnation the function cannot be registered. -/
-theorem C14_fresh_witness : ¬ C14_fresh_full := by
-  intro h
-  -- a created sandbox with function 7 registered
-  let w : World := { max := 2, sbx := fun _ => { status := .created, keys := fun f => f == 7 }, reg := [0],
-                     owners := fun o => if o = 0 then some (0, 7) else none }
-  obtain ⟨w1, hd⟩ : ∃ w1, w.destroy 0 = some w1 := ⟨_, rfl⟩
-  obtain ⟨_, s1, _, _, _⟩ := C14_destroy_effect w w1 0 hd
-  obtain ⟨w2, hc⟩ : ∃ w2, w1.create 0 true 1 = some (w2, true) := by
-    simp [World.create, s1]
-  have hk := h w w1 w2 0 1 hd hc 7
-  -- keys are untouched by destroy and create
-  have hd' := hd
-  simp only [World.destroy, w] at hd'
-  simp at hd'
-  subst hd'
-  simp only [World.create, World.setS] at hc
-  simp at hc
-  subst hc
-  simp [World.setS] at hk
+/-- consequently every owner of the earlier incarnation is stale in the new one: releasing it leaves
+the new incarnation's registrations alone -/
+theorem C14_old_owner_inert (w w1 w2 w3 : World) (i lib r o f : Nat) (hle : ∀ o i f n, w.owners o = some (i, f, n) → n ≤ (w.sbx i).inc)
+    (hd : w.destroy i = some w1) (hc : w1.create i true lib r = some (w2, true))
+    (n : Nat) (ho : w2.owners o = some (i, f, n)) (hr : w2.release o = some w3) : w3.sbx = w2.sbx := by
+  obtain ⟨_, _, _, hinc, hown⟩ := C14_fresh_full w w1 w2 i lib r hd hc
+  have hn : n ≤ (w.sbx i).inc := hle o i f n (by rw [← hown]; exact ho)
+  rcases release_cases w2 w3 o hr with ⟨hn', _⟩ | ⟨_, _, _, _, _, rfl⟩ | ⟨i', f', n', ho', _, hinc', _, _⟩
+  · rw [ho] at hn'; cases hn'
+  · rfl
+  · rw [ho] at ho'
+    have := Option.some.inj ho'
+    simp only [Prod.mk.injEq] at this
+    obtain ⟨rfl, rfl, rfl⟩ := this
+    omega
+
+/-- non-vacuity of `C14_fresh_full`: a created sandbox with a registered function and a live owner -/
+example : ∃ w w1 w2 : World, w.destroy 0 = some w1 ∧ w1.create 0 true 1 0 = some (w2, true) ∧
+    (w.sbx 0).keys 7 = true ∧ w.owners 0 = some (0, 7, 0) :=
+  ⟨{ max := 2, sbx := fun _ => { status := .created, keys := fun f => f == 7 }, reg := [0],
+     owners := fun o => if o = 0 then some (0, 7, 0) else none, mapped := [0] }, _, _, rfl, rfl, rfl, rfl⟩
+
+/-- non-vacuity of the region clause of `C14_find`: sandbox object 0 is created in region 5, destroyed,
+object 1 is created in the same region: an address of region 5 finds object 1, never object 0 -/
+example :
+    let w := [LOp.create 0 true 0 5, .destroy 0, .create 1 true 1 5].foldl World.step (World.init 2)
+    w.find 5 = some 1 ∧ (w.sbx 0).rgn = 5 ∧ (w.sbx 0).status = .notCreated := by
+  simp [World.step, World.create, World.destroy, World.init, World.setS, World.find, destroyedObj]
 
 end Rlbox.C14
